@@ -797,3 +797,66 @@ func ruleScanPos(c *Ctx) *RuleResult {
 	}
 	return r
 }
+
+func init() { registerRule("R-PAREN", false, ruleParen) }
+
+// ruleParen: parentheses truncate every multi-valued expression.
+func ruleParen(c *Ctx) *RuleResult {
+	r := newResult("R-PAREN", "an expression in parentheses yields exactly one value: in the '(' case of parsing.(*Parser).PrefixExp the parsed inner expression is tested for every type of package ast that implements ast.TailExpNode (the multi-valued expressions: a function call, '...') and converted to a node that is not one; an implementer without such a test keeps all its values inside parentheses")
+	p := c.P
+	pe := p.Func("parsing", "(*Parser).PrefixExp")
+	tail := p.TypeNamed("ast", "TailExpNode")
+	if pe == nil || tail == nil {
+		r.broken("anchor unresolved: parsing.(*Parser).PrefixExp / ast.TailExpNode")
+		return r
+	}
+	iface := tail.Underlying().(*types.Interface)
+	var impls []types.Type
+	ap := p.Pkg("ast")
+	for _, n := range ap.Types.Scope().Names() {
+		tn, ok := ap.Types.Scope().Lookup(n).(*types.TypeName)
+		if !ok {
+			continue
+		}
+		if _, isI := tn.Type().Underlying().(*types.Interface); isI {
+			continue
+		}
+		if types.Implements(tn.Type(), iface) {
+			impls = append(impls, tn.Type())
+		} else if types.Implements(types.NewPointer(tn.Type()), iface) {
+			impls = append(impls, types.NewPointer(tn.Type()))
+		}
+	}
+	r.count("multi_valued_expression_types", len(impls))
+	r.floor("multi_valued_expression_types", 2)
+	// the '(' case: blocks dominated by the target of `t.Type == SgOpenBkt`
+	tokC := constsOfType(p, "token", "Type")
+	cases := comparedConsts(pe, "token", "Type")
+	open := cases[tokC["SgOpenBkt"]]
+	if len(open) == 0 {
+		r.broken("PrefixExp has no case for token.SgOpenBkt (anchor moved?)")
+		return r
+	}
+	asserted := map[string]bool{}
+	for _, b := range open {
+		for _, d := range pe.Blocks {
+			if !b.Dominates(d) {
+				continue
+			}
+			for _, ins := range d.Instrs {
+				if ta, ok := ins.(*ssa.TypeAssert); ok {
+					asserted[typeKey(ta.AssertedType)] = true
+				}
+			}
+		}
+	}
+	for _, t := range impls {
+		// the replacement must not itself be multi-valued: checked by type
+		if asserted[typeKey(t)] {
+			r.ok("a parenthesised " + typeKey(t) + " is recognised and replaced")
+		} else {
+			r.fail("parenthesised-multivalue-not-truncated:"+typeKey(t), p.Pos(pe.Pos()), fmt.Sprintf("PrefixExp's '(' case does not test the inner expression for %s, which is multi-valued (implements ast.TailExpNode): `(e)` keeps all the values of e in an argument list, a table constructor or a return", typeKey(t)))
+		}
+	}
+	return r
+}
